@@ -469,6 +469,10 @@ class Writer:
             if m and m.group(1) in self.members:
                 gs.append(("nonempty", m.group(1)))
                 continue
+            m = re.match(r"^!std::isnan\((?:this->)?(\w+)\)$", g)       # "was given": own-member guard like non-emptiness
+            if m and m.group(1) in self.members:
+                gs.append(("nonempty", m.group(1)))
+                continue
             m = re.match(r"^(?:this->)?(\w+)$", g)
             if m and m.group(1) in self.members:
                 gs.append(("flag", m.group(1)))
